@@ -76,7 +76,7 @@ Section Composite.
   (* a data source as the composite sees it *)
   Record source := {
     get_data : str -> dict -> str -> res (dict * str);
-    find_system : str -> val -> option str
+    find_system : str -> val -> res (option str)      (* an answer, None, or the exception it raised *)
   }.
   (* what a recording source notes of a get_data call: its position, system id,
      preceding data and preceding version *)
@@ -102,13 +102,13 @@ Section Composite.
     end.
 
   (* _CompositeDataSource.find_system: loop with early return; log = positions asked *)
-  Fixpoint comp_find (i : nat) (srcs : list source) (k : str) (v : val) : list nat * option str :=
+  Fixpoint comp_find (i : nat) (srcs : list source) (k : str) (v : val) : list nat * res (option str) :=
     match srcs with
-    | [] => ([], None)
+    | [] => ([], Ok None)
     | s :: r =>
         match find_system s k v with
-        | Some x => ([i], Some x)
-        | None => let (log, out) := comp_find (S i) r k v in (i :: log, out)
+        | Ok None => let (log, out) := comp_find (S i) r k v in (i :: log, out)
+        | a => ([i], a)                      (* an answer - or an exception, which is not caught - ends the loop *)
         end
     end.
 
@@ -127,16 +127,16 @@ Section Composite.
     | Err _ => []
     end.
   (* find_system: the first answer that is not None, and who was asked *)
-  Fixpoint first_some (l : list (option str)) : option (nat * str) :=
+  Fixpoint first_some (l : list (res (option str))) : option (nat * res (option str)) :=
     match l with
     | [] => None
-    | Some x :: _ => Some (0, x)
-    | None :: r => option_map (fun p => (S (fst p), snd p)) (first_some r)
+    | Ok None :: r => option_map (fun p => (S (fst p), snd p)) (first_some r)
+    | a :: _ => Some (0, a)
     end.
-  Definition find_spec (i : nat) (srcs : list source) (k : str) (v : val) : list nat * option str :=
+  Definition find_spec (i : nat) (srcs : list source) (k : str) (v : val) : list nat * res (option str) :=
     match first_some (map (fun s => find_system s k v) srcs) with
-    | Some (j, x) => (seq i (S j), Some x)
-    | None => (seq i (length srcs), None)
+    | Some (j, a) => (seq i (S j), a)
+    | None => (seq i (length srcs), Ok None)
     end.
 
   (* version of the chain as a function of the constituent versions *)
@@ -151,7 +151,7 @@ Section Composite.
 End Composite.
 
 (* a source that answers with fixed data: the recording sources of the correspondence *)
-Definition const_source (out : res (dict * str)) (fs : option str) : source :=
+Definition const_source (out : res (dict * str)) (fs : res (option str)) : source :=
   {| get_data := fun _ _ _ => out; find_system := fun _ _ => fs |}.
 Arguments get_data : clear implicits.
 Arguments find_system : clear implicits.
